@@ -27,7 +27,12 @@ def _work(args):
     ci = repo.find_class(cname)
     if ci is None:
         return cname, [], [(cname, ["class not found in the source"])], [], {}
-    vcs, undecided = L.law_vcs(repo, ci, [l for l in laws if l != "L10"])
+    vcs, undecided = L.law_vcs(repo, ci, [l for l in laws if l not in ("L10", "C05")]) if any(l not in ("L10", "C05") for l in laws) else ([], [])
+    if "C05" in laws:
+        from . import spec_c05
+        v2, u2 = spec_c05.spec_vcs(repo, ci)
+        vcs += v2
+        undecided += u2
     syntactic = []
     if "L10" in laws:
         syntactic = L.l10_obligations(repo, ci, L.Runs(repo, ci))
